@@ -89,6 +89,12 @@ theorem dispatched_then_known (maxlen : Nat) (id : String) (known : List String)
     | zero => omega
     | succ n => simp
 
+/-- `add_outbound_message` registers the own id BEFORE the first entry is put on the send queue (program order traced on the
+    real method): nothing can be transmitted - and looped back - while the id is still unknown, so `own_message_ignored`
+    applies to every loop-back of an own datagram -/
+theorem generated_registers_before_enqueue :
+    Generated.addOutboundOrder.head? = some "register" ∧ "put" ∈ Generated.addOutboundOrder := by decide
+
 /-- non-vacuity: the multicast set with a concrete draw -/
 example : schedule Generated.multicast 17 120 = [17, 137, 377, 857, 1357] := by decide
 
